@@ -688,6 +688,20 @@ func init() {
 				l := fmt.Sprintf("%s.c%d", lab, i)
 				nrm := gen.Dir3(g.t, l+".n").Scale(gen.LogF(g.t, 0.1, 10, l+".len"))
 				d := gen.F(g.t, 0.05, 1, l+".d") * h.Norm()
+				if rapid.IntRange(0, 2).Draw(g.t, l+".corner") == 0 {
+					// a plane through a corner of the box: four or more planes meet in one vertex
+					// (pyramids, octahedra...), the case the library's vertex tolerance exists for
+					var corner kit.V3
+					for a := 0; a < 3; a++ {
+						corner[a] = c[a] + h[a]*float64(2*rapid.IntRange(0, 1).Draw(g.t, l+".cs")-1)
+					}
+					if nrm.Dot(corner.Sub(c)) < 0 {
+						nrm = nrm.Scale(-1)
+					}
+					n.P = append(n.P, nrm)
+					n.F = append(n.F, nrm.Dot(corner))
+					continue
+				}
 				n.P = append(n.P, nrm)
 				n.F = append(n.F, nrm.Dot(c)+d*nrm.Norm())
 			}
